@@ -1,10 +1,10 @@
 \* C48 leg A quick, family "time": grid 0..3; one series, all 40 chunk layouts x (76 interval lists of one request
-\* + 100 pairs of single-interval requests) = 7 040 inputs, all handed to leg B.
+\* + 100 pairs of single-interval requests) = 7 040 inputs; leg B gets the 3 040 one-request inputs.
 SPECIFICATION Spec
 CONSTANTS Family = "time"
           G = 3
           LTwo = FALSE
-          EmitTwoRequests = TRUE
+          EmitTwoRequests = FALSE
           Relabel = "none"
 INVARIANTS C48_ResultSatisfiesProperty FunctionalFormAgrees
 PROPERTY Progress
